@@ -102,28 +102,47 @@ pub fn case_roundtrip(va: &dyn VariantApi, bytes: &[u8], st: &CaseStats) -> Resu
 /// Acceptance is the implementation's; the expected text is computed syntactically.
 pub fn case_canonical(va: &dyn VariantApi, s: &[u8], st: &CaseStats) -> Result<(), String> {
     let v = va.v();
-    st.eval();
-    let h = match va.from_str_bytes(s, None) {
-        Ok(h) => h,
-        Err(e) => {
-            st.class(&format!("canonical: rejected {:?}", e));
-            return Ok(());
+    // every prefix mode: whatever a mode accepts must re-format to its own upper-case form, where
+    // "its own form" strips a leading "T1" exactly when that mode reads the string as prefixed
+    let mut accepted = false;
+    for p in MODES {
+        st.eval();
+        let h = match va.from_str_bytes(s, p) {
+            Ok(h) => h,
+            Err(e) => {
+                if p.is_none() {
+                    st.class(&format!("canonical: rejected {:?}", e));
+                }
+                continue;
+            }
+        };
+        accepted = true;
+        let prefixed = match p {
+            Some(Prefix::WithVersion) => true,
+            Some(Prefix::Empty) => false,
+            None => s.len() == v.len_str(),
+        };
+        let rest: &[u8] = if prefixed && s.len() >= 2 { &s[2..] } else { s };
+        let mut canon = b"T1".to_vec();
+        canon.extend(rest.iter().map(|c| c.to_ascii_uppercase()));
+        let mut buf = vec![0u8; v.len_str()];
+        h.store_str(&mut buf, Prefix::WithVersion).map_err(|e| format!("store failed {:?}", e))?;
+        if buf != canon {
+            return Err(format!(
+                "{}: the parser (prefix mode {:?}) accepts {} but re-formatting gives {} instead of its own upper-case form {} (so two different accepted strings denote the same hash, or the accepted text was not exactly the hexadecimal form)",
+                v.name,
+                p,
+                show(s),
+                show(&buf),
+                show(&canon)
+            ));
         }
-    };
-    let rest: &[u8] = if s.len() == v.len_str() { &s[2..] } else { s };
-    let mut canon = b"T1".to_vec();
-    canon.extend(rest.iter().map(|c| c.to_ascii_uppercase()));
-    let mut buf = vec![0u8; v.len_str()];
-    h.store_str(&mut buf, Prefix::WithVersion).map_err(|e| format!("store failed {:?}", e))?;
-    if buf != canon {
-        return Err(format!(
-            "{}: the parser accepts {} but re-formatting gives {} instead of its own upper-case form {} (so two different accepted strings denote the same hash, or the accepted text was not hexadecimal)",
-            v.name,
-            show(s),
-            show(&buf),
-            show(&canon)
-        ));
     }
+    if !accepted {
+        return Ok(());
+    }
+    let mut canon = b"T1".to_vec();
+    canon.extend(s.iter().skip(if s.len() == v.len_str() { 2 } else { 0 }).map(|c| c.to_ascii_uppercase()));
     st.class("canonical: accepted");
     if s != &canon[..] {
         st.nontrivial(fnv_mix(fnv(v.name.as_bytes()), fnv(s)));
